@@ -187,7 +187,8 @@ func PolicyCollections(
 	}, opts.WithName("AuthzDerivedPolicies")...)
 
 	PeerAuthByNamespace := krt.NewIndex(peerAuths, "namespaceWithSelector", func(p *securityclient.PeerAuthentication) []string {
-		if p.Spec.GetSelector() == nil {
+		// namespace- and mesh-level policies: no selector, or (like everywhere else) a selector without labels
+		if len(p.Spec.GetSelector().GetMatchLabels()) == 0 {
 			return []string{p.GetNamespace()}
 		}
 		return nil
@@ -211,7 +212,7 @@ func PolicyCollections(
 	PeerAuthDerivedPolicies := krt.NewCollection(peerAuths, func(ctx krt.HandlerContext, i *securityclient.PeerAuthentication) *model.WorkloadAuthorization {
 		meshCfg := krt.FetchOne(ctx, meshConfig.AsCollection())
 		// violates case #1, #2, or #3
-		if i.Namespace == meshCfg.GetRootNamespace() || i.Spec.GetSelector() == nil || len(i.Spec.PortLevelMtls) == 0 {
+		if i.Namespace == meshCfg.GetRootNamespace() || len(i.Spec.GetSelector().GetMatchLabels()) == 0 || len(i.Spec.PortLevelMtls) == 0 {
 			log.Debugf("skipping PeerAuthentication %s/%s for ambient since it isn't a workload policy with port level mTLS", i.Namespace, i.Name)
 			return nil
 		}
